@@ -196,6 +196,40 @@ pub fn message(r: &mut Rng, o: &MsgOpts) -> Message {
     }
 }
 
+/// well-formed messages at the edges of the format: total length exactly at / just below the 16-bit limit, 255 arguments or
+/// slices, string / raw / name fields around 32 KiB and at the limit, empty payloads
+pub fn boundary_message(r: &mut Rng, storage: Option<bool>) -> Message {
+    let be = r.coin();
+    let endianness = if be { Endianness::Big } else { Endianness::Little };
+    let ecu = if r.coin() { Some(id(r)) } else { None };
+    let sid = if r.coin() { Some(r.next() as u32) } else { None };
+    let tms = if r.coin() { Some(r.next() as u32) } else { None };
+    let std = 4 + 4 * (ecu.is_some() as usize + sid.is_some() as usize + tms.is_some() as usize);
+    let plain = |k: TypeInfoKind, v: Value| Argument { type_info: TypeInfo { kind: k, coding: StringCoding::UTF8, has_variable_info: false, has_trace_info: false }, name: None, unit: None, fixed_point: None, value: v };
+    let room = 65535 - std - 10; // payload bytes available with an extended header
+    let shape = r.below(8);
+    let (payload, mt, ext): (PayloadContent, MessageType, bool) = match shape {
+        0 => { let slack = *r.pick(&[0usize, 1, 2, 7]); (PayloadContent::Verbose(vec![plain(TypeInfoKind::Raw, Value::Raw(r.bytes(room - 6 - slack)))]), MessageType::Log(LogLevel::Info), true) }
+        1 => { let slack = *r.pick(&[0usize, 1, 3]); (PayloadContent::Verbose(vec![plain(TypeInfoKind::StringType, Value::StringVal("x".repeat(room - 7 - slack)))]), MessageType::Log(LogLevel::Debug), true) }
+        2 => (PayloadContent::Verbose((0..255).map(|i| plain(TypeInfoKind::Bool, Value::Bool(i as u8))).collect()), MessageType::ApplicationTrace(ApplicationTraceType::State), true),
+        3 => (PayloadContent::NetworkTrace((0..255).map(|i| vec![i as u8; (i % 3) as usize]).collect()), MessageType::NetworkTrace(NetworkTraceType::Ethernet), true),
+        4 => { let n = *r.pick(&[32766usize, 32767, 32768, 32769]); (PayloadContent::Verbose(vec![plain(TypeInfoKind::StringType, Value::StringVal("é".repeat(n / 2))), plain(TypeInfoKind::Raw, Value::Raw(r.bytes(n - 10000)))]), MessageType::Log(LogLevel::Warn), true) }
+        5 => { let slack = *r.pick(&[0usize, 1]); (PayloadContent::NonVerbose(r.next() as u32, r.bytes(65535 - std - 4 - slack)), MessageType::Log(LogLevel::Info), false) }
+        6 => { let mut a = plain(TypeInfoKind::Unsigned(TypeLength::BitLength128), Value::U128(u128::MAX - 5)); a.type_info.has_variable_info = true; a.name = Some("n".repeat(*r.pick(&[254usize, 255, 256, 32767]))); a.unit = Some(String::new());
+               (PayloadContent::Verbose(vec![a]), MessageType::Log(LogLevel::Verbose), true) }
+        _ => { let slack = *r.pick(&[0usize, 1, 100]); (PayloadContent::ControlMsg(ControlType::Response, r.bytes(room - 1 - slack)), MessageType::Control(ControlType::Response), true) }
+    };
+    let plen = payload_len(&payload, endianness);
+    let (verbose, noar) = match &payload { PayloadContent::Verbose(a) => (true, a.len() as u8), PayloadContent::NetworkTrace(s) => (true, s.len() as u8), _ => (false, 0) };
+    let st = storage.unwrap_or_else(|| r.coin());
+    Message {
+        storage_header: if st { Some(StorageHeader { timestamp: DltTimeStamp { seconds: r.next() as u32, microseconds: r.next() as u32 }, ecu_id: id(r) }) } else { None },
+        header: StandardHeader { version: 1, endianness, has_extended_header: ext, message_counter: r.next() as u8, ecu_id: ecu, session_id: sid, timestamp: tms, payload_length: plen as u16 },
+        extended_header: if ext { Some(ExtendedHeader { verbose, argument_count: noar, message_type: mt, application_id: id(r), context_id: id(r) }) } else { None },
+        payload,
+    }
+}
+
 /// one byte-level mutation of a serialised message (`sh`: it carries a storage header)
 pub fn mutate(r: &mut Rng, b: &[u8], sh: bool) -> Vec<u8> {
     let mut x = b.to_vec();
